@@ -1,0 +1,162 @@
+//go:build verif
+
+package btccurve
+
+// Machine-checked contracts for this package (read by /verif/govc; comment-only, compiled only
+// with -tags verif). See /verif/DESIGN.md.
+//
+// Field-congruence contracts (variant field): the modulus curve.P is read as 0 and arithmetic is over
+// the rationals, so `cong(a, b)` is the polynomial identity a - b == 0 at P = 0, which proves
+// a == b (mod P) for the real integers (every value the code reduces differs from the polynomial by a
+// multiple of P). The right-hand sides are the textbook chord-and-tangent formulas for y^2 = x^3 + 7
+// in Jacobian coordinates (x = X/Z^2, y = Y/Z^3) with denominators cleared.
+
+//@ props C17
+
+//@ spec sq(a mathint) mathint = a*a
+//@ spec cube(a mathint) mathint = a*a*a
+//@ spec ju1(x1 mathint, z2 mathint) mathint = x1*z2*z2
+//@ spec js1(y1 mathint, z2 mathint) mathint = y1*z2*z2*z2
+
+//@ func (curve koblitzCurve) doubleJacobian(x *big.Int, y *big.Int, z *big.Int) (x3 *big.Int, y3 *big.Int, z3 *big.Int)
+//@   variant field
+//@   fieldmode curve.P
+//@   requires x != nil && y != nil && z != nil && curve.P != nil
+//@   ensures  x3 != nil && y3 != nil && z3 != nil
+//@   ensures  cong(*x3, 9*sq(sq(*x)) - 8*(*x)*sq(*y))
+//@   ensures  cong(*y3, 3*sq(*x)*(4*(*x)*sq(*y) - *x3) - 8*sq(sq(*y)))
+//@   ensures  cong(*z3, 2*(*y)*(*z))
+//@   noframe
+
+//@ func (curve koblitzCurve) addJacobian(x1 *big.Int, y1 *big.Int, z1 *big.Int, x2 *big.Int, y2 *big.Int, z2 *big.Int) (x3 *big.Int, y3 *big.Int, z3 *big.Int)
+//@   variant field
+//@   fieldmode curve.P
+//@   requires x1 != nil && y1 != nil && z1 != nil && x2 != nil && y2 != nil && z2 != nil && curve.P != nil
+//@   ensures  x3 != nil && y3 != nil && z3 != nil
+//@   ensures  implies(*z1 == 0, *x3 == *x2 && *y3 == *y2 && *z3 == *z2)
+//@   ensures  implies(*z1 != 0 && *z2 == 0, *x3 == *x1 && *y3 == *y1 && *z3 == *z1)
+//@   ensures  implies(*z1 != 0 && *z2 != 0 && !(ju1(*x2, *z1) == ju1(*x1, *z2) && js1(*y2, *z1) == js1(*y1, *z2)), cong(*z3, 2*(*z1)*(*z2)*(ju1(*x2, *z1) - ju1(*x1, *z2))))
+//@   ensures  implies(*z1 != 0 && *z2 != 0 && !(ju1(*x2, *z1) == ju1(*x1, *z2) && js1(*y2, *z1) == js1(*y1, *z2)), cong(*x3, 4*sq(js1(*y2, *z1) - js1(*y1, *z2)) - 4*sq(ju1(*x2, *z1) - ju1(*x1, *z2))*(ju1(*x1, *z2) + ju1(*x2, *z1))))
+//@   ensures  implies(*z1 != 0 && *z2 != 0 && !(ju1(*x2, *z1) == ju1(*x1, *z2) && js1(*y2, *z1) == js1(*y1, *z2)), cong(*y3, 2*(js1(*y2, *z1) - js1(*y1, *z2))*(4*sq(ju1(*x2, *z1) - ju1(*x1, *z2))*ju1(*x1, *z2) - *x3) - 8*js1(*y1, *z2)*cube(ju1(*x2, *z1) - ju1(*x1, *z2))))
+//@   ensures  implies(*z1 != 0 && *z2 != 0 && ju1(*x2, *z1) == ju1(*x1, *z2) && js1(*y2, *z1) == js1(*y1, *z2), cong(*x3, 9*sq(sq(*x1)) - 8*(*x1)*sq(*y1)) && cong(*z3, 2*(*y1)*(*z1)))
+//@   noframe
+
+//@ func (curve koblitzCurve) affineFromJacobian(x *big.Int, y *big.Int, z *big.Int) (xOut *big.Int, yOut *big.Int)
+//@   variant field
+//@   fieldmode curve.P
+//@   requires x != nil && y != nil && z != nil && curve.P != nil
+//@   ensures  implies(*z != 0 && has_inverse(*z, *curve.P), cong((*xOut)*sq(*z), *x) && cong((*yOut)*cube(*z), *y))
+//@   ensures  implies(*z == 0, *xOut == 0 && *yOut == 0)
+//@   noframe
+
+//@ func (curve koblitzCurve) Add(x1 *big.Int, y1 *big.Int, x2 *big.Int, y2 *big.Int) (xr *big.Int, yr *big.Int)
+//@   variant field
+//@   fieldmode curve.P
+//@   requires x1 != nil && y1 != nil && x2 != nil && y2 != nil && curve.P != nil
+//@   note     chord formula with cleared denominators, for two affine points that are not the identity, not equal and not opposite (x1 != x2)
+//@   ensures  implies(!(*x1 == 0 && *y1 == 0) && !(*x2 == 0 && *y2 == 0) && *x1 != *x2 && has_inverse(2*(*x2 - *x1), *curve.P), cong((*xr)*sq(*x2 - *x1), sq(*y2 - *y1) - (*x1 + *x2)*sq(*x2 - *x1)))
+//@   ensures  implies(!(*x1 == 0 && *y1 == 0) && !(*x2 == 0 && *y2 == 0) && *x1 != *x2 && has_inverse(2*(*x2 - *x1), *curve.P), cong((*yr)*(*x2 - *x1), (*y2 - *y1)*(*x1 - *xr) - (*y1)*(*x2 - *x1)))
+//@   note     tangent formula when the two points are equal and not of order two
+//@   ensures  implies(!(*x1 == 0 && *y1 == 0) && *x1 == *x2 && *y1 == *y2 && has_inverse(2*(*y1), *curve.P), cong((*xr)*4*sq(*y1), 9*sq(sq(*x1)) - 8*(*x1)*sq(*y1)))
+//@   noframe
+
+//@ func (curve koblitzCurve) Double(x1 *big.Int, y1 *big.Int) (xr *big.Int, yr *big.Int)
+//@   variant field
+//@   fieldmode curve.P
+//@   requires x1 != nil && y1 != nil && curve.P != nil
+//@   ensures  implies(!(*x1 == 0 && *y1 == 0) && has_inverse(2*(*y1), *curve.P), cong((*xr)*4*sq(*y1), 9*sq(sq(*x1)) - 8*(*x1)*sq(*y1)))
+//@   ensures  implies(!(*x1 == 0 && *y1 == 0) && has_inverse(2*(*y1), *curve.P), cong((*yr)*2*(*y1), 3*sq(*x1)*(*x1 - *xr) - 2*sq(*y1)))
+//@   noframe
+
+//@ func zForAffine(x *big.Int, y *big.Int) (z *big.Int)
+//@   requires x != nil && y != nil
+//@   ensures  z != nil && *z == ite(*x == 0 && *y == 0, 0, 1)
+//@   panics   never
+//@   noframe
+
+// ---- exact (integer) contracts: no panics for in-range inputs, results in [0, p), the identity is
+// written (0,0) on input and output, special cases of the group law.
+
+//@ spec secpP() mathint = 115792089237316195423570985008687907853269984665640564039457584007908834671663
+//@ spec inF(a mathint) bool = 0 <= a && a < secpP()
+//@ spec p2(n int) mathint = ite(n <= 0, 1, ite(n == 1, 2, ite(n == 2, 4, ite(n == 3, 8, ite(n == 4, 16, ite(n == 5, 32, ite(n == 6, 64, ite(n == 7, 128, 256))))))))
+//@ axiom prime_inverse(z mathint)
+//@   theory secp
+//@   ensures implies(0 < z && z < secpP(), has_inverse(z, secpP()))
+
+//@ func (curve koblitzCurve) IsOnCurve(x *big.Int, y *big.Int) (ok bool)
+//@   requires x != nil && y != nil && curve.P != nil && curve.B != nil && *curve.P == secpP() && *curve.B == 7
+//@   ensures  ok == ((sq(*y) - cube(*x) - 7) % secpP() == 0)
+//@   panics   never
+//@   noframe
+
+//@ func (curve koblitzCurve) doubleJacobian(x *big.Int, y *big.Int, z *big.Int) (x3 *big.Int, y3 *big.Int, z3 *big.Int)
+//@   requires x != nil && y != nil && z != nil && curve.P != nil && *curve.P == secpP() && inF(*x) && inF(*y) && inF(*z)
+//@   ensures  x3 != nil && y3 != nil && z3 != nil && inF(*x3) && inF(*y3) && inF(*z3)
+//@   ensures  *z3 == (2*(*y)*(*z)) % secpP()
+//@   ensures  *x == old(*x) && *y == old(*y) && *z == old(*z)
+//@   panics   never
+//@   noframe
+
+//@ func (curve koblitzCurve) addJacobian(x1 *big.Int, y1 *big.Int, z1 *big.Int, x2 *big.Int, y2 *big.Int, z2 *big.Int) (x3 *big.Int, y3 *big.Int, z3 *big.Int)
+//@   requires x1 != nil && y1 != nil && z1 != nil && x2 != nil && y2 != nil && z2 != nil && curve.P != nil && *curve.P == secpP()
+//@   requires inF(*x1) && inF(*y1) && inF(*z1) && inF(*x2) && inF(*y2) && inF(*z2)
+//@   ensures  x3 != nil && y3 != nil && z3 != nil && inF(*x3) && inF(*y3) && inF(*z3)
+//@   ensures  implies(*z1 == 0, *x3 == *x2 && *y3 == *y2 && *z3 == *z2)
+//@   ensures  implies(*z1 != 0 && *z2 == 0, *x3 == *x1 && *y3 == *y1 && *z3 == *z1)
+//@   ensures  implies(*z1 == 1 && *z2 == 1 && *x1 == *x2 && *y1 != *y2, *z3 == 0)
+//@   ensures  implies(*z1 == 1 && *z2 == 1 && *x1 != *x2, *z3 != 0)
+//@   panics   never
+//@   noframe
+
+//@ func (curve koblitzCurve) affineFromJacobian(x *big.Int, y *big.Int, z *big.Int) (xOut *big.Int, yOut *big.Int)
+//@   theory secp
+//@   requires x != nil && y != nil && z != nil && curve.P != nil && *curve.P == secpP() && inF(*z)
+//@   ensures  xOut != nil && yOut != nil && inF(*xOut) && inF(*yOut)
+//@   ensures  implies(*z == 0, *xOut == 0 && *yOut == 0)
+//@   ensures  implies(*z == 1 && inF(*x) && inF(*y), *xOut == *x && *yOut == *y)
+//@   panics   never
+//@   noframe
+
+//@ func (curve koblitzCurve) Add(x1 *big.Int, y1 *big.Int, x2 *big.Int, y2 *big.Int) (xr *big.Int, yr *big.Int)
+//@   requires x1 != nil && y1 != nil && x2 != nil && y2 != nil && curve.P != nil && *curve.P == secpP()
+//@   requires inF(*x1) && inF(*y1) && inF(*x2) && inF(*y2)
+//@   ensures  xr != nil && yr != nil && inF(*xr) && inF(*yr)
+//@   ensures  implies(*x2 == 0 && *y2 == 0, *xr == *x1 && *yr == *y1)
+//@   ensures  implies(*x1 == 0 && *y1 == 0, *xr == *x2 && *yr == *y2)
+//@   ensures  implies(!(*x1 == 0 && *y1 == 0) && !(*x2 == 0 && *y2 == 0) && *x1 == *x2 && *y1 != *y2, *xr == 0 && *yr == 0)
+//@   panics   never
+//@   noframe
+
+//@ func (curve koblitzCurve) Double(x1 *big.Int, y1 *big.Int) (xr *big.Int, yr *big.Int)
+//@   requires x1 != nil && y1 != nil && curve.P != nil && *curve.P == secpP() && inF(*x1) && inF(*y1)
+//@   ensures  xr != nil && yr != nil && inF(*xr) && inF(*yr)
+//@   ensures  implies(*x1 == 0 && *y1 == 0, *xr == 0 && *yr == 0)
+//@   panics   never
+//@   noframe
+
+//@ func (curve koblitzCurve) ScalarMult(Bx *big.Int, By *big.Int, k []byte) (xr *big.Int, yr *big.Int)
+//@   requires Bx != nil && By != nil && curve.P != nil && *curve.P == secpP() && inF(*Bx) && inF(*By)
+//@   ensures  xr != nil && yr != nil && inF(*xr) && inF(*yr)
+//@   ensures  implies(forall(i, 0, len(k), k[i] == 0), *xr == 0 && *yr == 0)
+//@   ensures  implies(*Bx == 0 && *By == 0, *xr == 0 && *yr == 0)
+//@   panics   never
+//@   noframe
+//@   loop 1 invariant 0 <= _i1 && _i1 <= len(k) && x != nil && y != nil && z != nil && Bz != nil && inF(*x) && inF(*y) && inF(*z)
+//@   loop 1 invariant *Bx == old(*Bx) && *By == old(*By) && *Bz == ite(*Bx == 0 && *By == 0, 0, 1)
+//@   loop 1 invariant implies(!seenFirstTrue, forall(i, 0, _i1, k[i] == 0) && *x == *Bx && *y == *By && *z == *Bz)
+//@   loop 1 invariant implies(*Bx == 0 && *By == 0, *z == 0)
+//@   loop 1 invariant implies(seenFirstTrue, exists(i, 0, _i1, k[i] != 0))
+//@   loop 1.1 invariant 0 <= bitNum && bitNum <= 8 && x != nil && y != nil && z != nil && inF(*x) && inF(*y) && inF(*z)
+//@   loop 1.1 invariant *Bx == old(*Bx) && *By == old(*By) && *Bz == ite(*Bx == 0 && *By == 0, 0, 1)
+//@   loop 1.1 invariant implies(!seenFirstTrue, forall(i, 0, _i1, k[i] == 0) && *x == *Bx && *y == *By && *z == *Bz)
+//@   loop 1.1 invariant implies(!seenFirstTrue, mathint(byte) == mathint(k[_i1])*p2(bitNum) && mathint(k[_i1])*p2(bitNum) < 256)
+//@   loop 1.1 invariant implies(*Bx == 0 && *By == 0, *z == 0)
+//@   loop 1.1 invariant implies(seenFirstTrue, exists(i, 0, _i1+1, k[i] != 0))
+
+//@ func (curve koblitzCurve) ScalarBaseMult(k []byte) (xr *big.Int, yr *big.Int)
+//@   requires curve.Gx != nil && curve.Gy != nil && curve.P != nil && *curve.P == secpP() && inF(*curve.Gx) && inF(*curve.Gy)
+//@   ensures  xr != nil && yr != nil && inF(*xr) && inF(*yr)
+//@   ensures  implies(forall(i, 0, len(k), k[i] == 0), *xr == 0 && *yr == 0)
+//@   panics   never
+//@   noframe
